@@ -30,7 +30,7 @@ def cases(tier, seed):
     for i in range(n):
         bf = rng.choice([2, 4, 4, 8])
         g = dict(seed=rng.randrange(10 ** 9), ndims=3, nlevels=1 + i % 3, bf=bf,
-                 base_blocks=(1, 3) if bf >= 4 else (2, 4), payload=rng.choice(["random", "special"]))
+                 base_blocks=(1, 3) if bf >= 4 else (2, 4), payload=rng.choice(["random", "special", "extreme"]))
         if bf == 8:
             g["nlevels"] = min(g["nlevels"], 2)
         cs.append({"gen": g, "sel_seed": seed * 29 + i, "shuffle1": i % 2 == 0})
